@@ -1,6 +1,7 @@
 package adapter
 
 import (
+	"slices"
 	"time"
 
 	"github.com/karagenc/socket.io-go/internal/sync"
@@ -77,7 +78,9 @@ func (a *sessionAwareAdapter) cleaner() {
 		for i := len(a.packets) - 1; i >= 0; i-- {
 			packet := a.packets[i]
 			if packet.HasExpired(a.maxDisconnectDuration) {
-				a.packets = append(a.packets[:i], a.packets[i+1:]...)
+				// Packets are in emission order: this is the newest expired one, everything before it has expired too.
+				// Remove them all. Removing only this one would leave a hole behind the older packets.
+				a.packets = slices.Delete(a.packets, 0, i+1)
 				break
 			}
 		}
